@@ -274,24 +274,13 @@ def _prioritised(model: Model, fn: FunctionInfo, path: Path, orig: Term, req: Te
         return len(ps) == 1 and ps[0].exit == "return" and _prioritised(model, g, ps[0], sym(inv[orig]), sym(inv[req]), depth + 1)
     if v[0] == "var":
         v = v[3]
-    if v[0] != "lin" or v[2] != 0:
+    if v[0] != "concat" or len(v[1]) != 2:
         return False
-    parts = [(as_single_comp(path, a), c) for a, c in v[1]]
-    comp = [a for a, c in parts if a[0] == "comp"]
-    ok = len(parts) == 2 and all(c == 1 for _, c in parts) and any(a == req for a, _ in parts) and len(comp) == 1
-    if not ok:
+    left, right = v[1][0], as_single_comp(path, v[1][1])
+    if left != req or right[0] != "comp":
         return False
-    cp = comp[0]
-    ok = cp[1] == "list" and len(cp[3]) == 1 and cp[3][0][0] == orig and cp[2][0] == "bound" and list(cp[3][0][1]) == [t_not(("in", cp[2], req))]
-    return ok and _concat_left_is(fn, req[1])
-
-
-def _concat_left_is(fn: FunctionInfo, name: str) -> bool:
-    """list concatenation is kept as a commutative sum in the term language: the order of the operands is read off the syntax"""
-    for n in ast.walk(fn.node):
-        if isinstance(n, ast.BinOp) and isinstance(n.op, ast.Add) and isinstance(n.right, (ast.ListComp, ast.Name)):
-            return isinstance(n.left, ast.Name) and n.left.id == name
-    return False
+    cp = right
+    return cp[1] == "list" and len(cp[3]) == 1 and cp[3][0][0] == orig and cp[2][0] == "bound" and list(cp[3][0][1]) == [t_not(("in", cp[2], req))]
 
 
 def w4(model: Model, rep: Report):
